@@ -381,8 +381,10 @@ class MailboxSet(MailboxSetInterface[MailboxData]):
 
     async def list_subscribed(self) -> ListTree:
         async with self._set_lock.read_lock():
-            mailboxes = [child for child in self._set.keys()
-                         if self._subscribed.get(child)]
+            # whether or not a mailbox by that name exists (any more)
+            mailboxes = [child for child, subscribed
+                         in self._subscribed.items()
+                         if subscribed and child != 'INBOX']
             if self._subscribed.get('INBOX', True):
                 mailboxes.insert(0, 'INBOX')
         return ListTree(self.delimiter).update(*mailboxes)
